@@ -157,6 +157,7 @@ func main() {
 		return
 	}
 	c := newCtx(w, *tier, *verif)
+	knownProgFns = c.fnKeys()
 	if *dump != "" {
 		doDump(c, *dump)
 		exit = 0
@@ -191,8 +192,13 @@ func main() {
 				}()
 				c.baseCounts(r)
 				p.Run(c, r)
+				kf, _ := loadKnown(filepath.Join(*verif, "known_findings.json"))
+				knownUsed = map[*KnownEntry]bool{}
 				for _, o := range r.Obls {
 					if o.Verdict == Finding || o.Verdict == Undecided {
+						if kf != nil && o.Verdict == Finding && kf.match(id, o) != nil {
+							continue
+						}
 						out = append(out, o.ID()+" @ "+o.Pos+" :: "+o.Reason)
 					}
 				}
